@@ -192,7 +192,7 @@ static SymSeq expand(std::mt19937_64 &rng, int len, int sigma, int runs)
 static bool random_property()
 {
         using namespace rc;
-        int shape = *gen::resize(100, gen::inRange(0, 6));
+        int shape = *gen::resize(100, gen::inRange(0, 7));
         if (shape == 0) {
                 // small, fully drawn (shrinks to a minimal counterexample)
                 int sigma = *gen::resize(100, gen::inRange(1, 14));
@@ -239,6 +239,57 @@ static bool random_property()
                         }
                 }
                 counters["shape_substring"]++;
+        } else if (shape == 6) {
+                // call history: the routines are functions of their arguments, so a call must not depend on the call before it.
+                // First a pattern cut out of the text, then 1..3 further calls whose pattern is a prefix / suffix / edited copy /
+                // extension of the previous one (lengths on and next to the 64-symbol block edges), against the same or a
+                // shortened text.
+                int start = (int)(rng() % (uint64_t)(n - m + 1));
+                p.assign(t.begin() + start, t.begin() + start + m);
+                for (int k = 0; k < muts / 4 && !p.empty(); k++) {
+                        p[rng() % p.size()] = rng() % sigma;
+                }
+                counters["shape_history"]++;
+                if (!judge(t, p)) {
+                        return false;
+                }
+                int follow = 1 + (int)(rng() % 3);
+                for (int f = 0; f < follow; f++) {
+                        SymSeq q;
+                        int op = rng() % 5;
+                        int cur = (int)p.size();
+                        static const int CUTS[] = {1, 2, 10, 40, 63, 64, 65, 100, 127, 128, 129, 150, 191, 192, 193, 255, 256, 300, 511, 512, 513, 1000, 1023, 1024};
+                        if (op <= 1 && cur > 1) {
+                                int want = CUTS[rng() % (sizeof(CUTS) / sizeof(CUTS[0]))];
+                                int len = want < cur ? want : 1 + (int)(rng() % (uint64_t)(cur - 1));
+                                q.assign(p.begin(), p.begin() + len);                 // proper prefix
+                        } else if (op == 2 && cur > 1) {
+                                int len = 1 + (int)(rng() % (uint64_t)(cur - 1));
+                                q.assign(p.end() - len, p.end());                     // proper suffix
+                        } else if (op == 3) {
+                                q = p;
+                                q[rng() % q.size()] = rng() % sigma;                  // one symbol changed
+                        } else {
+                                q = p;                                                // extended (not beyond the text)
+                                int add = 1 + (int)(rng() % 70);
+                                for (int k = 0; k < add && (int)q.size() < n; k++) {
+                                        q.push_back(rng() % sigma);
+                                }
+                        }
+                        SymSeq t2 = t;
+                        if (rng() % 3 == 0 && (int)t2.size() > (int)q.size()) {
+                                t2.resize(q.size() + rng() % (t2.size() - q.size()));
+                        }
+                        if (q.empty() || q.size() > t2.size()) {
+                                continue;
+                        }
+                        counters["history_followup"]++;
+                        if (!judge(t2, q)) {
+                                return false;
+                        }
+                        p = q;
+                }
+                return true;
         } else if (shape == 4) {
                 p = expand(rng, m, sigma, runs);
                 counters["shape_unrelated"]++;
